@@ -7,7 +7,8 @@
 //!   actions   how many actions SIGUSR1 has before the call (0: `r` is the first registration, the
 //!             library takes the signal over inside the call)
 //!   prev      disposition of SIGUSR1 before the library ever touched it: i = ignored, h = a plain
-//!             handler, s = a SA_SIGINFO handler (both count their calls and check their arguments)
+//!             handler, s = a SA_SIGINFO handler (both count their calls and check their arguments); H / S = the
+//!             same installed with SA_RESETHAND|SA_NODEFER|SA_ONSTACK and a mask
 //!
 //! The call is single-stepped (x86 trap flag) and the process forks at every trap; the CHILD raises
 //! SIGUSR1 right there - the kernel runs whatever handler is the disposition at that instant,
@@ -193,11 +194,16 @@ fn main() {
         libc::sigemptyset(&mut p.sa_mask);
         match prev {
             "i" => p.sa_sigaction = libc::SIG_IGN,
-            "h" => p.sa_sigaction = prev_plain as *const () as usize,
+            "h" | "H" => p.sa_sigaction = prev_plain as *const () as usize,
             _ => {
                 p.sa_sigaction = prev_info as *const () as usize;
                 p.sa_flags = libc::SA_SIGINFO;
             }
+        }
+        if prev == "H" || prev == "S" {
+            // a previous handler that asked for an unusual environment: none of it may rub off on the library's handler
+            p.sa_flags |= libc::SA_RESETHAND | libc::SA_NODEFER | libc::SA_ONSTACK;
+            libc::sigaddset(&mut p.sa_mask, libc::SIGWINCH);
         }
         assert_eq!(0, libc::sigaction(S, &p, ptr::null_mut()));
     }
